@@ -3,9 +3,13 @@
    file into Props/C11.v.
 
    Model: Compiler/ParseBlocks.v.  `extract_*_v fixed cap lf` is the extractor of
-     fixed = false, cap = None     : /repo as of 45ce265
-     fixed = true,  cap = None     : /repo + proposed_fixes/F11a-legacy-if-unclosed.diff
-     fixed = true,  cap = Some 100 : /repo + F11a + proposed_fixes/F11b-block-depth-limit.diff
+     fixed = false, cap = None     : /repo as of 45ce265 (before the fixes below)
+     fixed = true,  cap = Some 100 : /repo as of 623c615 = 45ce265 + 2da11ec (F11a: legacy headers without
+                                     `>>` are diagnosed) + 179a3c4 (F11b: nesting cap) + b0767bb (glue
+                                     honoured by every text flush of an @if branch) + 623c615 (comment
+                                     lines at the head of a loop body dropped before dedenting); the
+                                     unsuffixed names
+     fixed = true,  cap = None     : the same without the nesting cap
    for ARBITRARY line-level functions `lf : linefns` (part A's ParseLine.v is one instance).
    Token kinds: the extractors return `token` (Story/Compiled.v), so "only documented kinds" holds by
    typing.  Outside the model: the interpreter's recursion limit (without F11b the nesting depth of
@@ -53,7 +57,7 @@ Theorem extractors_never_out_of_fuel : forall fixed cap lf lines start,
 Proof. exact never_out_of_fuel_all. Qed.
 Print Assumptions extractors_never_out_of_fuel.
 
-(* Totality with F11a applied: a value or a SyntaxError/ValueError diagnostic, never an internal
+(* Totality of the current code (fixed = true, i.e. from commit 2da11ec on): a value or a SyntaxError/ValueError diagnostic, never an internal
    error, whenever the line-level functions are total in that sense. *)
 Theorem extractors_total : forall cap lf lines start,
   lf_total lf -> lf_progress lf ->
@@ -70,7 +74,7 @@ Theorem python_block_internal_only_out_of_range : forall lines start e,
 Proof. exact extract_python_block_internal_iff. Qed.
 Print Assumptions python_block_internal_only_out_of_range.
 
-(* The unpatched code is NOT total: `<<if x` without `>>` escapes with UnboundLocalError (F11a),
+(* The code before commit 2da11ec was NOT total: `<<if x` without `>>` escapes with UnboundLocalError (F11a),
    at top level and nested in a loop. *)
 Theorem extract_conditional_block_cur_refuted : exists lf lines start,
   lf_total lf /\ lf_progress lf /\ header_at is_if_line lines start /\
@@ -99,7 +103,7 @@ Theorem legacy_elif_reuses_stale_condition_cur :
 Proof. vm_compute. reflexivity. Qed.
 Print Assumptions legacy_elif_reuses_stale_condition_cur.
 
-(* With the nesting cap of F11b the recursion is bounded by the cap whatever the input: 101 nested
+(* With the nesting cap (commit 179a3c4, F11b) the recursion is bounded by the cap whatever the input: 101 nested
    extractor calls on one path are enough for every line list (fuel counts exactly those calls). *)
 Theorem capped_recursion_depth_bounded : forall fixed lf n lines start,
   lf_no_fuel lf -> lf_progress lf -> max_block_depth < n ->
@@ -140,7 +144,7 @@ Example sample_conditional :
                 Branch "True" [TPyStmt "n = 1"; THook true "turn_end" "Tick"] []], 11).
 Proof. vm_compute. reflexivity. Qed.
 
-(* the same header without `>>`, after F11a: a located diagnostic *)
+(* the same header without `>>` in the current code: a located diagnostic *)
 Example sample_fixed_header :
   extract_conditional_block lf_sample ["<<if x"; "hello"; "<<endif>>"] 0
   = PDiag (DSyntax "if-missing-close" 0).
@@ -149,3 +153,19 @@ Proof. vm_compute. reflexivity. Qed.
 (* an unclosed legacy <<py block reports len - start + 1 lines: the upper bound of the contract is met *)
 Example sample_py_unclosed : extract_python_block ["<<py"; "  a = 1"] 0 = POk ("a = 1", 3).
 Proof. vm_compute. reflexivity. Qed.
+
+(* glue before a directive inside a branch: honoured since b0767bb, ignored before *)
+Example sample_glue_before_directive :
+  extract_conditional_block lf_sample ["@if a:"; "  one<>"; "  ~ n = 1"; "  two"; "@endif"] 0
+  = POk (TCond [Branch "a" [TText "one"; TPyStmt "n = 1"; TText "two"; tnl] []], 5)
+  /\ extract_conditional_block_cur lf_sample ["@if a:"; "  one<>"; "  ~ n = 1"; "  two"; "@endif"] 0
+  = POk (TCond [Branch "a" [TText "one<>"; tnl; TPyStmt "n = 1"; TText "two"; tnl] []], 5).
+Proof. split; vm_compute; reflexivity. Qed.
+
+(* a comment line at the head of a loop body no longer decides the base indentation (623c615) *)
+Example sample_loop_leading_comment :
+  extract_loop_block lf_sample ["@for x in xs:"; "# note"; ""; "    item"; "@endfor"] 0
+  = POk (TLoop "x" "xs" [tnl; TText "item"; tnl] [], 5)
+  /\ extract_loop_block_cur lf_sample ["@for x in xs:"; "# note"; ""; "    item"; "@endfor"] 0
+  = POk (TLoop "x" "xs" [tnl; TText "    item"; tnl] [], 5).
+Proof. split; vm_compute; reflexivity. Qed.
